@@ -19,7 +19,7 @@ Step == /\ l <= Len(Trace) /\ l' = l + 1
            \/ Ev.op = "load" /\ ~Ev.panic /\ snap # S!NoSnap /\ store' = snap /\ UNCHANGED snap
            \/ /\ Ev.op = "probe" /\ ~Ev.panic
               /\ \A k \in DOMAIN store : Ev.vals[k] = store[k]              \* exact-key lookups
-              /\ (Ev.count >= 0 => Ev.count = S!CountOf(store))              \* Count (-1: store has no Count)
+              /\ (Ev.hascount => Ev.count = S!CountOf(store))               \* Count (the subscription tree has none)
               /\ SameBag(Ev.iter, store)                                      \* Iterate
               /\ UNCHANGED <<store, snap>>
 TSpec == TInit /\ [][Step]_<<l, store, snap>>
